@@ -65,7 +65,21 @@ const c14T0 = 1700000000
 
 var c14Start = time.Unix(c14T0-3600, 0).UTC()
 
-func c14FeedTime(k int) time.Time { return time.Unix(int64(c14T0+60*k), 0).UTC() }
+// feedTimeScheme: 0 feeds 60 s apart; 1 all feeds carry the same timestamp; 2 no feed carries a
+// timestamp (CreatedAt is the zero time); 3 timestamps decrease. Set per execution.
+var feedTimeScheme int
+
+func c14FeedTime(k int) time.Time {
+	switch feedTimeScheme {
+	case 1:
+		return time.Unix(int64(c14T0), 0).UTC()
+	case 2:
+		return time.Time{}
+	case 3:
+		return time.Unix(int64(c14T0-60*k), 0).UTC()
+	}
+	return time.Unix(int64(c14T0+60*k), 0).UTC()
+}
 
 type specStop struct {
 	stop     string
@@ -324,14 +338,16 @@ func c14Shallow(maxLen int) Harness {
 			syms = append(syms, c.Free(fmt.Sprintf("feed[%d]", k), c14Symbols))
 		}
 		scheme := c.Choose("value_scheme", 5)
+		feedTimeScheme = c.Choose("feed_time_scheme", 4)
+		defer func() { feedTimeScheme = 0 }()
 		absent := scheme == 1
 		var names []string
 		for _, s := range syms {
 			names = append(names, symName(s))
 		}
 		hist := strings.Join(names, " ")
-		c.Input(hash64(hist+fmt.Sprint(scheme)), n >= 2, func() string {
-			return fmt.Sprintf("history: %s (value scheme %d: 0 unique per feed, 1 optional values absent, 2 times constant/track changes, 3 track constant/times change, 4 all constant)", hist, scheme)
+		c.Input(hash64(hist+fmt.Sprint(scheme, feedTimeScheme)), n >= 2, func() string {
+			return fmt.Sprintf("history: %s (value scheme %d: 0 unique per feed, 1 optional values absent, 2 times constant/track changes, 3 track constant/times change, 4 all constant; feed time scheme %d: 0 increasing, 1 all equal, 2 no timestamps, 3 decreasing)", hist, scheme, feedTimeScheme)
 		})
 		_ = absent
 		var feeds []*gtfs.Realtime
@@ -493,7 +509,7 @@ func init() {
 	register(&Check{
 		ID:    "C14",
 		Level: "model_checking",
-		Rule: "one trip; feed symbols {trip omitted, unassigned [AB], assigned x every list over {A,B,C} of length <= 3 (40 lists)} = 42; ALL histories of <= 3 feeds (thorough <= 4), each under 5 value schemes (unique per feed; optional values absent; times constant while the track changes; track constant while times change; all constant), journal built for every prefix; plus explicit-state BFS to the fixpoint over histories starting with an assigning feed, states canonicalised to (stop id, marked?)* + trip-marked flag; " +
+		Rule: "one trip; feed symbols {trip omitted, unassigned [AB], assigned x every list over {A,B,C} of length <= 3 (40 lists)} = 42; ALL histories of <= 3 feeds (thorough <= 4), each under 5 value schemes (unique per feed; optional values absent; times constant while the track changes; track constant while times change; all constant) and 4 feed-time schemes (60 s apart; all equal; no timestamps; decreasing), one deviation at a time, journal built for every prefix; plus explicit-state BFS to the fixpoint over histories starting with an assigning feed, states canonicalised to (stop id, marked?)* + trip-marked flag; " +
 			"non-trivial = distinct histories of >= 2 feeds; oracle = nondeterministic specification automaton (set of admissible lists, refined by each observation)",
 		Assumptions: []string{"when the update's first stop is not in the list, or the update is empty, any prefix of the old list may be kept (the statement only constrains the case where the first stop is present)", "BFS state merging is sound because the journal code branches only on stop ids, nil-ness of marks and the assigned/active flags"},
 		Scenarios: func(tier string) []*Scenario {
